@@ -10,8 +10,8 @@ NEW = {
 }
 BASES = {"gfa1": [["sA", "sB", "sC"], ["sA", "sB", "sC", "l1", "l10", "c2", "p1"], ["sA", "sB", "sC", "l1", "l7", "p2", "p4"],
                   ["sA", "sB", "sC", "l10", "raw:P\tpv\tC+,A-\t*"],             # a path read before its link: a virtual link C+ A- exists
-                  ["sA", "raw:L\tA\t+\t12\t+\t*", "raw:S\t3\t*"]],               # a segment known only by a mention (placeholder) with an integer-looking name
-         "gfa2": [["sA", "sB", "sC"], ["sA", "raw:E\t*\tA+\t12-\t0\t2\t0\t2\t*", "raw:S\t3\t8\t*"], ["sA", "sB", "sC", "e1", "g1", "o1", "u1"], ["sA", "sB", "sC", "e1", "e6", "ua", "ub", "oa", "ob", "u4", "u1"]]}
+                  ["sA", "raw:L\tA\t+\t4\t+\t*", "raw:S\t3\t*"]],               # a segment known only by a mention (placeholder) with an integer-looking name
+         "gfa2": [["sA", "sB", "sC"], ["sA", "raw:E\t*\tA+\t4-\t0\t2\t0\t2\t*", "raw:S\t3\t8\t*"], ["sA", "sB", "sC", "e1", "g1", "o1", "u1"], ["sA", "sB", "sC", "e1", "e6", "ua", "ub", "oa", "ob", "u4", "u1"]]}
 
 
 def doc_lines(version, ids):
